@@ -7,3 +7,4 @@ INVARIANT LawAdmissible
 INVARIANT LawSchema
 INVARIANT LawSchemaStrict
 INVARIANT LawReadBack
+INVARIANT LawHistory
